@@ -116,6 +116,7 @@ type Inst struct {
 	rets    []*Event
 	sum     *Summary
 	curB    *ssa.BasicBlock
+	narrow  *Term // set by inline(): the condition under which the inlined callee returned (it may also panic)
 }
 
 func (x *Ext) globalSym(g *ssa.Global) *Term {
@@ -446,7 +447,7 @@ func (in *Inst) callName(c *ssa.CallCommon) (name string, static *ssa.Function, 
 	}
 	switch f := c.Value.(type) {
 	case *ssa.Function:
-		return canonFunc(f), f, in.X.funcTerm(f)
+		return stdAlias(canonFunc(f)), f, in.X.funcTerm(f)
 	case *ssa.Builtin:
 		return "builtin:" + f.Name(), nil, in.X.builtinTerm(f.Name())
 	case *ssa.MakeClosure:
@@ -477,4 +478,17 @@ func isPureStd(name string) bool {
 		return true
 	}
 	return false
+}
+
+// stdAlias maps deprecated standard-library entry points to their successors (identical behaviour by documentation).
+func stdAlias(name string) string {
+	switch name {
+	case "io/ioutil.ReadFile":
+		return "os.ReadFile"
+	case "io/ioutil.WriteFile":
+		return "os.WriteFile"
+	case "io/ioutil.ReadAll":
+		return "io.ReadAll"
+	}
+	return name
 }
